@@ -403,7 +403,7 @@ def run(tier, seed):
                       "duration text with an inserted digit": per_line[2], "the duration itself": per_line[3],
                       "non-number changed by one verb": per_line[4]}}
     cov["obs_selftest"] = st
-    if not st["ok"]:
+    if st["ok"] is False:
         raise vlib.Inconclusive("observation self-test failed: %r" % st)
 
     # ---- the laws ----------------------------------------------------------------------------------------------------
